@@ -45,6 +45,9 @@ def models(tier):
     for c_i in (0, 1):
         a3 += [("m", c_i, "cer_p0"), ("m", c_i, "cea_ok"), ("m", c_i, "dpr"), ("eof", c_i)]
     out.append(monitors.ScenarioModel("persistent-peer-connecting-inbound", cfg(True, False, 2), a3, MONS, max_socks=3, start_plan=["refused"]))
+    # a second deterministic scheduling policy (the I/O thread runs only when nothing else can): thorough tier
+    if tier == "thorough":
+        out = monitors.with_io_last(out)
     return out
 
 
